@@ -7,6 +7,7 @@ package main
 
 import (
 	"fmt"
+	"go/types"
 	"sort"
 	"strings"
 
@@ -41,8 +42,21 @@ type QFact struct {
 	lineIdx int
 	guard   Term
 	varSym  string
+	sort    Sort // sort of the bound variable (Int, or Str for "forall k string")
+	ref     bool // the bound variable is a typed reference ("forall c *T"): never instantiated at index arithmetic
 	body    Term // range ==> body, with varSym free
 	unfolds []unfoldT
+}
+
+// SkolemFn is the skolem function of an existential that occurs positively
+// under a universally quantified assumption: "forall v :: H ==> exists i :: B"
+// is assumed in the form "forall v :: H ==> B[i := f(v)]", so that f(sk) is a
+// named candidate witness when a goal about sk needs one.
+type SkolemFn struct {
+	lineIdx int
+	name    string
+	dom     Sort
+	ref     bool
 }
 
 // Witness is a skolem constant of an assumed existential.
@@ -83,7 +97,8 @@ func (e *Env) quantPartsU(q *EQuant) (string, Term, Term, []unfoldT, error) {
 func (e *Env) quantParts0(q *EQuant) (string, Term, Term, error) {
 	e.vc.nfresh++
 	v := quote(fmt.Sprintf("q:%s!%d", q.Var, e.vc.nfresh))
-	env := e.with(map[string]TV{q.Var: {Term{v, SInt}, tInt}})
+	qs, qt := e.quantVar(q)
+	env := e.with(map[string]TV{q.Var: {Term{v, qs}, qt}})
 	env.bound = true
 	var unf []unfoldT
 	env.unfolds = &unf
@@ -106,6 +121,22 @@ func (e *Env) quantParts0(q *EQuant) (string, Term, Term, error) {
 	}
 	return v, rng, body, nil
 }
+
+// quantVar: sort and Go type of a quantifier's bound variable.
+func (e *Env) quantVar(q *EQuant) (Sort, types.Type) {
+	if q.Typ == "" {
+		return SInt, tInt
+	}
+	nerr := len(e.vc.errs)
+	t, s := e.vc.lemmaParamType(e, q.Typ)
+	if len(e.vc.errs) > nerr || t == nil {
+		e.vc.errs = e.vc.errs[:nerr]
+		return SInt, tInt // the error is reported by the clause evaluation
+	}
+	return s, t
+}
+
+func (e *Env) quantSort(q *EQuant) Sort { s, _ := e.quantVar(q); return s }
 
 func subst(t Term, sym string, by Term) Term {
 	return Term{strings.ReplaceAll(t.S, sym, by.S), t.Sort}
@@ -134,10 +165,15 @@ func (vc *VC) assumeClause(guard Term, env *Env, cl *Clause) {
 			continue
 		}
 		if q.Forall {
-			vc.qfacts = append(vc.qfacts, &QFact{lineIdx: len(vc.lines), guard: and(guard, h), varSym: v, body: implies(rng, body), unfolds: unf})
+			qs, qt := env.quantVar(q)
+			vc.qfacts = append(vc.qfacts, &QFact{lineIdx: len(vc.lines), guard: and(guard, h), varSym: v, sort: qs, ref: isRefType(qt), body: implies(rng, body), unfolds: unf})
+			vc.skolemiseInner(guard, h, env, q, v, rng)
 			continue
 		}
-		w := vc.fresh("ex:"+q.Var, SInt)
+		w := vc.fresh("ex:"+q.Var, env.quantSort(q))
+		if _, wt := env.quantVar(q); isRefType(wt) {
+			vc.refTerms[w.S] = true
+		}
 		vc.assume(and(guard, h), subst(and(rng, body), v, w))
 		vc.witnesses = append(vc.witnesses, &Witness{lineIdx: len(vc.lines), t: w})
 		// a universally quantified conjunct under the existential becomes a
@@ -147,7 +183,8 @@ func (vc *VC) assumeClause(guard Term, env *Env, cl *Clause) {
 			if !ok || !iq.Forall {
 				continue
 			}
-			ienv := env.with(map[string]TV{q.Var: {w, tInt}})
+			_, wt := env.quantVar(q)
+			ienv := env.with(map[string]TV{q.Var: {w, wt}})
 			ih, err := ienv.evalHyps(ip.hyps)
 			if err != nil {
 				continue
@@ -156,9 +193,117 @@ func (vc *VC) assumeClause(guard Term, env *Env, cl *Clause) {
 			if err != nil {
 				continue
 			}
-			vc.qfacts = append(vc.qfacts, &QFact{lineIdx: len(vc.lines), guard: and(guard, h, ih), varSym: iv, body: implies(irng, ibody)})
+			vc.qfacts = append(vc.qfacts, &QFact{lineIdx: len(vc.lines), guard: and(guard, h, ih), varSym: iv, sort: ienv.quantSort(iq), body: implies(irng, ibody)})
 		}
 	}
+}
+
+func isRefType(t types.Type) bool {
+	if t == nil {
+		return false
+	}
+	_, ok := t.Underlying().(*types.Pointer)
+	return ok
+}
+
+// skolemiseInner: for an assumed "forall v :: rng ==> (... H ==> exists i :: B ...)"
+// whose existential is reached from the body through && and the right-hand
+// sides of ==> only (a positive position), assume also
+// "forall v :: rng && H ==> B[i := f(v)]" for a new function f, and remember f.
+func (vc *VC) skolemiseInner(guard, h Term, env *Env, q *EQuant, v string, rng Term) {
+	qs, qt := env.quantVar(q)
+	benv := env.with(map[string]TV{q.Var: {Term{v, qs}, qt}})
+	benv.bound = true
+	for _, ip := range clauseParts(q.Body) {
+		iq, ok := ip.concl.(*EQuant)
+		if !ok || iq.Forall || iq.Typ != "" {
+			continue
+		}
+		ih, err := benv.evalHyps(ip.hyps)
+		if err != nil {
+			continue
+		}
+		iv, irng, ibody, err := benv.quantParts(iq)
+		if err != nil {
+			continue
+		}
+		vc.nfresh++
+		fname := quote(fmt.Sprintf("skf:%s!%d", iq.Var, vc.nfresh))
+		vc.declare("skf:"+fname, fmt.Sprintf("(declare-fun %s (%s) Int)", fname, qs))
+		app := Term{"(" + fname + " " + v + ")", SInt}
+		fact := implies(and(rng, ih), subst(and(irng, ibody), iv, app))
+		vc.assume(and(guard, h), T(SBool, "(forall ((%s %s)) (! %s :pattern (%s)))", v, qs, fact.S, app.S))
+		vc.qfacts = append(vc.qfacts, &QFact{lineIdx: len(vc.lines), guard: and(guard, h), varSym: v, sort: qs, ref: isRefType(qt), body: fact})
+		vc.skolemFns = append(vc.skolemFns, &SkolemFn{lineIdx: len(vc.lines), name: fname, dom: qs, ref: isRefType(qt)})
+	}
+}
+
+// existentialGoal rebuilds the body of a universally quantified goal that has
+// been skolemised at sk, offering candidate witnesses to every existential
+// that is reached through && and the right-hand sides of ==>: the values at sk
+// of the skolem functions of the assumptions, and the ends of the
+// existential's own range. Each added disjunct implies the existential, so
+// the strengthened goal implies the original one.
+func (vc *VC) existentialGoal(env *Env, q *EQuant, sk Term, skRef bool) (Term, bool) {
+	_, qt := env.quantVar(q)
+	parts := clauseParts(q.Body)
+	eligible := false
+	for _, ip := range parts {
+		if iq, ok := ip.concl.(*EQuant); ok && !iq.Forall && iq.Typ == "" && iq.Lo != nil {
+			eligible = true
+		}
+	}
+	if !eligible {
+		return Term{}, false
+	}
+	// sk is declared with the obligation only: evaluate as under a binder, so
+	// that nothing about it is added to the shared prefix
+	senv := env.with(map[string]TV{q.Var: {sk, qt}})
+	senv.bound = true
+	any := false
+	goal := tTrue
+	for _, ip := range parts {
+		ih, err := senv.evalHyps(ip.hyps)
+		if err != nil {
+			return Term{}, false
+		}
+		iq, ok := ip.concl.(*EQuant)
+		if !ok || iq.Forall || iq.Typ != "" || iq.Lo == nil {
+			c, err := senv.evalBool(ip.concl)
+			if err != nil {
+				return Term{}, false
+			}
+			goal = and(goal, implies(ih, c))
+			continue
+		}
+		orig, err := senv.evalBool(ip.concl)
+		if err != nil {
+			return Term{}, false
+		}
+		iv, irng, ibody, err := senv.quantParts(iq)
+		if err != nil {
+			return Term{}, false
+		}
+		var cands []Term
+		for _, f := range vc.skolemFns {
+			if f.lineIdx <= len(vc.lines) && f.dom == sk.Sort && f.ref == skRef {
+				cands = append(cands, Term{"(" + f.name + " " + sk.S + ")", SInt})
+			}
+		}
+		if lo, err := senv.eval(iq.Lo); err == nil {
+			cands = append(cands, lo.T)
+		}
+		if hi, err := senv.eval(iq.Hi); err == nil {
+			cands = append(cands, sub(hi.T, intLit(1)))
+		}
+		disj := []Term{orig}
+		for _, c := range cands {
+			disj = append(disj, subst(and(irng, ibody), iv, c))
+		}
+		goal = and(goal, implies(ih, or(disj...)))
+		any = true
+	}
+	return goal, any
 }
 
 // obligeClause emits one obligation per conjunct of a clause. Universally
@@ -189,15 +334,35 @@ func (vc *VC) obligeClause(kind, label, site string, guard Term, env *Env, cl *C
 				return
 			}
 			vc.nfresh++
-			sk := Term{quote(fmt.Sprintf("sk:%s!%d", q.Var, vc.nfresh)), SInt}
+			qs, qt := env.quantVar(q)
+			sk := Term{quote(fmt.Sprintf("sk:%s!%d", q.Var, vc.nfresh)), qs}
 			goal := subst(implies(rng, body), v, sk)
+			{
+				if eg, ok := vc.existentialGoal(env, q, sk, isRefType(qt)); ok {
+					goal = implies(subst(rng, v, sk), eg)
+				}
+			}
 			o := vc.oblige(kind, label, psite, and(guard, h), goal, src)
 			if o == nil {
 				continue
 			}
-			o.Extra = append(o.Extra, fmt.Sprintf("(declare-const %s Int)", sk.S))
+			o.Extra = append(o.Extra, fmt.Sprintf("(declare-const %s %s)", sk.S, sk.Sort))
 			for _, u := range unf {
 				o.Extra = append(o.Extra, "(assert "+subst(eq(u.app, u.body), v, sk).S+")")
+			}
+			if sk.Sort != SInt || isRefType(qt) {
+				// a goal about all strings / all references of a type: the
+				// quantified assumptions of that kind at the skolem constant
+				// and at the witnesses of that sort
+				vc.refTerms[sk.S] = isRefType(qt)
+				cands := []Term{sk}
+				for _, w := range vc.witnesses {
+					if w.lineIdx <= len(vc.lines) && w.t.Sort == sk.Sort && vc.refTerms[w.t.S] == isRefType(qt) {
+						cands = append(cands, w.t)
+					}
+				}
+				vc.addInstances(o, cands)
+				continue
 			}
 			vc.addInstances(o, vc.instCandidates([]Term{sk}, env))
 			continue
@@ -215,11 +380,14 @@ func (vc *VC) obligeClause(kind, label, site string, guard Term, env *Env, cl *C
 			}
 			var seeds []Term
 			for _, w := range vc.witnesses {
-				if w.lineIdx <= len(vc.lines) {
+				if w.lineIdx <= len(vc.lines) && w.t.Sort == env.quantSort(q) {
 					seeds = append(seeds, w.t)
 				}
 			}
 			cands := vc.witnessCandidates(seeds, env)
+			if env.quantSort(q) != SInt {
+				cands = seeds
+			}
 			disj := []Term{orig}
 			for _, c := range cands {
 				disj = append(disj, subst(and(rng, body), v, c))
@@ -248,6 +416,9 @@ func (vc *VC) addInstances(o *Obligation, cands []Term) {
 			continue
 		}
 		for _, c := range cands {
+			if qs := qf.sort; (qs == "" && c.Sort != SInt) || (qs != "" && c.Sort != qs) || qf.ref != vc.refTerms[c.S] {
+				continue
+			}
 			o.Extra = append(o.Extra, "(assert "+implies(qf.guard, subst(qf.body, qf.varSym, c)).S+")")
 			for _, u := range qf.unfolds {
 				o.Extra = append(o.Extra, "(assert "+subst(eq(u.app, u.body), qf.varSym, c).S+")")
